@@ -120,10 +120,27 @@ func TestVerifC07(t *testing.T) {
 		}
 		meta.emit(map[string]any{"scn": id, "cutpoints": len(points), "scenario": sc})
 		if !full {
+			// the sample always contains the cut right after the new master was published (the request is still
+			// pending then, the recorded master has already changed)
+			var pivotal []string
+			for _, pt := range points {
+				if strings.HasPrefix(pt, "zk|SetData|master|") || strings.HasPrefix(pt, "zk|Create|master|") {
+					pivotal = append(pivotal, pt)
+				}
+			}
 			rng.Shuffle(len(points), func(a, c int) { points[a], points[c] = points[c], points[a] })
 			lim := vEnvInt("VERIF_CUTS_PER_BASE", 6)
 			if len(points) > lim {
 				points = points[:lim]
+			}
+			for _, pv := range pivotal {
+				dup := false
+				for _, pt := range points {
+					dup = dup || pt == pv
+				}
+				if !dup {
+					points = append(points, pv)
+				}
 			}
 		}
 		for _, pt := range points {
